@@ -5,7 +5,9 @@ SPECIAL = list('()[]{}<>\'"/\\|&-.,!=#*_')
 WHOLE = ['(', ')', '{', '}', '[', ']', '<', '>', '-LRB-', '-RRB-', '-', '&', '.', ',', '!', "'s", '``', "''",
          'a(b', 'x)', '<s>', '-LAB-', '--', '...',
          # escapes / header look-alikes embedded in a longer token
-         'f-LRB-x-RRB-', 'x-LCB-', '-RSB-y', 'ID=42', 'userID=a', '#ID=1', 'a[conj]', 'x_none', '{I1}y']
+         'f-LRB-x-RRB-', 'x-LCB-', '-RSB-y', 'ID=42', 'userID=a', '#ID=1', 'a[conj]', 'x_none', '{I1}y',
+         # the word of the failure placeholder, as an ordinary word
+         'FAILED']
 ASCII = list('abcdefghijklmnopqrstuvwxyzABCDEXYZ0123456789')
 CURATED = list('éüñçßøÅΩλжЯאبहกあアｱ日本語漢字中한𝔘😀🙂€£©±×÷¿¡«»‘’“”…–—・。、「」') + ['́', '̈', '゙', '⃣']
 
